@@ -14,6 +14,7 @@ Tables == JsonDeserialize("tables.json")
 TrFold == Tables.fold
 TrSingular == Tables.singular
 TrLCamel == Tables.lcamel
+TrUCamel == Tables.ucamel
 
 VARIABLE l
 TInit == l = 1
@@ -27,13 +28,13 @@ Violated(r) ==
   THEN NilChecksViolated(CfgOf(r), r.pre, r.post)
        \cup (IF NilChecksViolated(CfgOf(r), r.pre, r.post) = {} /\ r.post # BuilderWithNilChecks(CfgOf(r), r.pre)
              THEN {[clause |-> "function", class |-> "differs-from-BuilderWithNilChecks"]} ELSE {})
-  ELSE ConverterViolated(CfgOf(r), Tables.schemas[r.s], r.builders, r.builder, r.conv)
+  ELSE ConverterViolated(CfgOf(r), Tables.schemas[r.s], r.dir, r.builder, r.conv)
 \* vacuity: what each record exercises
 Stats(r) ==
   IF r.kind = "nilchecks"
   THEN LET scopes == <<r.post.ctor.assigns>> \o [i \in DOMAIN r.post.options |-> r.post.options[i].assigns]
        IN UNION {UNION {{PrefixClass(CfgOf(r), scopes[s][j], i) : i \in NeededLens(CfgOf(r), scopes[s][j])} : j \in DOMAIN scopes[s]} : s \in DOMAIN scopes}
-  ELSE ConverterStats(CfgOf(r), Tables.schemas[r.s], r.builders, r.builder, r.conv)
+  ELSE ConverterStats(CfgOf(r), Tables.schemas[r.s], r.dir, r.builder, r.conv)
 
 Verdict == l = 1 \/ Violated(Rec) = {} \/
            (~Strict /\ PrintT(<<"FAIL", ToJson([l |-> l - 1, violated |-> Violated(Rec)])>>))
